@@ -5,7 +5,8 @@ spec/FFMap.tla : P-layer ExclP (bond-graph distance in the final molecule within
                  I-layer TagExclusions (retag with the original distance, molecule gets the minimum) and expand_excl inside
                  ApplyLinks (neighbourhood by path length in nodes); C14_Inv: ExclEff of the I-layer = ExclP, uniform distance
                  kept and nothing invented.  Deviations: min->max (m10), tag lost on merge, cut-off off by one (m11).
-S->I : TLC enumerates instance E (trees on <= 4 residues + all connected graphs on 3, names over {A, B} with 1-3 atoms, block
+S->I : instance EX adds copies of a two-residue from_itp block (cyclic graphs on 3 residues, two separate fragments in 5-6
+       residues) to mixed distances.  TLC enumerates instance E (trees on <= 4 residues + all connected graphs on 3, names over {A, B} with 1-3 atoms, block
        distances 0..4, link-made bonds with '+' and '>' links, explicit block and link exclusions) and exports the expected
        effective exclusion set together with the table "pairs within d bonds"; the real code is run on .ff / polyply .itp
        renderings (processors and gen_params + written .itp); nrexcl, [ exclusions ] and the bond graph are read back.
@@ -120,9 +121,9 @@ def replay_instance(ck, label, res, tier, sd, gp_every):
     for case in cases:
         ck.nontrivial.add(label + u.case_key(case["inp"]))
         nmixed += not case["uniform"]
-    ck.extra["instance"] = {"inputs": len(cases), "runs": len(work), "force_fields": len(ffs), "mixed_distance_inputs": nmixed,
+    ck.extra.setdefault("instances", {})[label] = {"inputs": len(cases), "runs": len(work), "force_fields": len(ffs), "mixed_distance_inputs": nmixed,
                             "inputs_with_generated_exclusions": sum(1 for x in cases if x["ngenI"] > 0), "via_gen_params": ngp}
-    if not nmixed or not ck.extra["instance"]["inputs_with_generated_exclusions"]:
+    if not nmixed or not ck.extra["instances"][label]["inputs_with_generated_exclusions"]:
         raise c.MachineryError("instance E never mixes exclusion distances (vacuous)")
     return cases, ffs
 
@@ -147,21 +148,24 @@ def run(tier):
                       "[ exclusions ] and the bond list and unions sets"]
     E = "FF_Eq" if quick else "FF_Et"
     ck.stage("TLC: model + export + deviations (concurrently)")
-    jobs = [(E, "FF_E_export.cfg", {"workers": 6 if quick else 12, "timeout": 3000}), ("FF_Esmall", "FF_E.cfg", {"workers": 2})]
+    jobs = [(E, "FF_E_export.cfg", {"workers": 6 if quick else 12, "timeout": 3000}), ("FF_Esmall", "FF_E.cfg", {"workers": 2}),
+            ("FF_EX", "FF_E_export.cfg", {"workers": 2})]
     jobs += [(m, "FF_dev_%s.cfg" % d, {"workers": 1, "check": False, "timeout": 600}) for m, d, _, _ in DEVS]
     jobs += [(m, "FF_dev_%s.cfg" % r, {"workers": 1, "check": False, "timeout": 600}) for m, r in REACH]
     res = c.tlc_many(jobs, workers_each=2)
-    ex, small = res[:2]
+    ex, small, exx = res[:3]
     ck.model_must_hold(ex, "C14_Inv (+ C01_Inv, Base_Inv) on instance E")
     ck.model_must_hold(small, "C14_Inv small")
-    for (m, d, inv, what), r in zip(DEVS, res[2:2 + len(DEVS)]):
+    ck.model_must_hold(exx, "C14_Inv (+ C01_Inv, Base_Inv) on instance EX")
+    for (m, d, inv, what), r in zip(DEVS, res[3:3 + len(DEVS)]):
         ck.model_must_refute(r, inv, what)
-    for (m, rname), r in zip(REACH, res[2 + len(DEVS):]):
+    for (m, rname), r in zip(REACH, res[3 + len(DEVS):]):
         ck.model_must_refute(r, rname, "non-vacuity: " + rname)
     ck.extra["deviations_refuted"] = [d for _, d, _, _ in DEVS]
 
     ck.stage("S->I replay")
     cases, ffs = replay_instance(ck, "E", ex, tier, sd, 4)
+    replay_instance(ck, "EX", exx, "thorough", sd, 3)       # small: always both syntaxes
     mixed = [x for x in cases if not x["uniform"] and x["ngenI"] > 0]
     s = mixed[len(mixed) // 2]
     ck.sample({"S->I input": s["inp"], "block distances": {b["name"]: b["nrexcl"] for b in ffs[s["inp"]["ff"] - 1]["blocks"]},
